@@ -28,7 +28,7 @@ type View struct {
 	// attachments in a handed module state whose entity the view does not hold
 	OrphanAttachments int
 	// Mods: module letters loaded for this client ("" = unknown: module relays are applied as they come).
-	Mods               string
+	Mods                string
 	haveVikja, haveOdal bool
 	// Relays received after the join but before the corresponding state
 	// message: they are applied on top of the snapshot when it arrives (the
